@@ -261,7 +261,8 @@ def check_mermaid(text: str, m: Model) -> list[tuple[str, str]]:
         """0 = names differ, 1 = edges differ, 2 = only kinds differ, 3 = match"""
         if any(nm not in names[f[i]] for i, nm in defs):
             return 0
-        if Counter((f[a], f[b], k) for a, b, k in edges) == exp_e:
+        # (Mermaid: an edge without text and an edge whose kind is the empty string are the same picture)
+        if Counter((f[a], f[b], k or None) for a, b, k in edges) == Counter({(a, b, k or None): c for (a, b, k), c in exp_e.items()}):
             return 3
         if Counter((f[a], f[b]) for a, b, _k in edges) == exp_plain:
             return 2
@@ -478,6 +479,7 @@ def inputs(tier: str):
         groups = {
             "string ids differing in punctuation only": list(string_id_specs(3)),
             "names and kinds that look like markup": list(gen.plain_specs(3, min_n=1, alphabet=("<init>", "a&b"))) + [gen.Spec(tuple((p, lab, d, ("<requires>", "k1")[i % 2]) for i, (p, lab, d, _k) in enumerate(s.nodes)), typed=True) for s in gen.plain_specs(2, min_n=1, alphabet=("<lambda>", "b"))],
+            "empty names and kinds (falsy attribute values are values)": list(gen.plain_specs(3, min_n=1, alphabet=("", "0"))) + [gen.Spec(tuple((p, lab, d, ("", "k1")[i % 2]) for i, (p, lab, d, _k) in enumerate(s.nodes)), typed=True) for s in gen.plain_specs(3, min_n=1, alphabet=("", "b"))],
             "non-ASCII names and kinds": list(gen.plain_specs(3, min_n=1, alphabet=("Zürich", "日本"))) + [gen.Spec(tuple((p, lab, d, ("zubehör", "k1")[i % 2]) for i, (p, lab, d, _k) in enumerate(s.nodes)), typed=True) for s in gen.plain_specs(3, min_n=1, alphabet=("Zürich", "b"))],
             "plain": list(gen.plain_specs(4)),
             "typed": list(gen.typed_specs(3, alphabet=("a", "b", "c"))) + list(gen.typed_specs(4, min_n=4)),
@@ -489,6 +491,7 @@ def inputs(tier: str):
         groups = {
             "string ids differing in punctuation only": list(string_id_specs(4)),
             "names and kinds that look like markup": list(gen.plain_specs(3, min_n=1, alphabet=("<init>", "a&b"))) + [gen.Spec(tuple((p, lab, d, ("<requires>", "k1")[i % 2]) for i, (p, lab, d, _k) in enumerate(s.nodes)), typed=True) for s in gen.plain_specs(2, min_n=1, alphabet=("<lambda>", "b"))],
+            "empty names and kinds (falsy attribute values are values)": list(gen.plain_specs(3, min_n=1, alphabet=("", "0"))) + [gen.Spec(tuple((p, lab, d, ("", "k1")[i % 2]) for i, (p, lab, d, _k) in enumerate(s.nodes)), typed=True) for s in gen.plain_specs(3, min_n=1, alphabet=("", "b"))],
             "non-ASCII names and kinds": list(gen.plain_specs(4, min_n=1, alphabet=("Zürich", "日本"))) + [gen.Spec(tuple((p, lab, d, ("zubehör", "k1")[i % 2]) for i, (p, lab, d, _k) in enumerate(s.nodes)), typed=True) for s in gen.plain_specs(3, min_n=1, alphabet=("Zürich", "b"))],
             "plain": list(gen.plain_specs(5)),
             "typed": list(gen.typed_specs(4, alphabet=("a", "b", "c"))),
